@@ -553,10 +553,11 @@ def gen_chunks(rng, tier):
                 yield Case("u.chunks", [hx(n), dec(k)], nontrivial=nw >= 3)
                 if rng.random() < 0.3 and n:
                     yield Case("u.chunks", [hx(n >> rng.randrange(1, 64)), dec(k)], nontrivial=nw >= 3)
-    # E1: extreme chunk_bits.  Inline values: every extreme (the code never allocates there).  Heap values: the code allocates
-    # ceil(chunk_bits / 64) + 1 words PER CHUNK whatever the size of the number, so only chunk sizes are driven whose buffers are
-    # small (<= 2^20 bits) or are refused at once without touching memory (>= 2^63: `try to allocate too much memory` / `out of
-    # memory` — finding `to_chunks-huge-chunk-bits`); the sizes in between would really allocate chunk_bits / 8 bytes.
+    # E1: extreme chunk_bits.  Inline values: every extreme (the code never allocates there).  Heap values: since fix 80bcfde the
+    # chunk buffers have min(ceil(chunk_bits / 64), words.len()) + 1 words, so EVERY chunk size is driven on heap values too:
+    # the extremes, sizes all over (2^20, 2^63) (which allocated chunk_bits / 8 bytes per chunk before the fix) and, from the branch
+    # condition of the `.min(words.len())`, sizes with ceil(chunk_bits / 64) = len - 1, len, len + 1 (both sides of the clamp, aligned
+    # and unaligned path) for numbers with bit length 64 len (top word full: end_bits == 0), 64 (len - 1) + 1 and in between.
     ext = usize_extremes(rng, tier)
     for k in ext:
         for n in [0, 1, (1 << 64) - 1, 1 << 64, (1 << 128) - 1, rng.getrandbits(rng.randrange(1, 129))]:
@@ -564,9 +565,21 @@ def gen_chunks(rng, tier):
         # from_chunks with ONE chunk: the shift is 0 for every chunk size
         yield Case("u.from_chunks", [dec(k), hx(rng.getrandbits(rng.choice([1, 64, 65, 200])))], nontrivial=False)
     heap = [1 << 128, (1 << 192) - 1, nat_pattern(rng, 5, "random") | (1 << 300)]
-    for k in [129, 193, 1 << 10, (1 << 16) + 1, 1 << 20, (1 << 20) + 63] + [x for x in ext if x >= (1 << 63)]:
+    mid = [(1 << 20) + 64, 1 << 21, (1 << 24) + 1, (1 << 30) - 1, 1 << 32, (1 << 40) + rng.randrange(1, 64), 1 << 48, (1 << 62) + 63, (1 << 63) - 1, (1 << 63) - 64]
+    mid += [rng.getrandbits(rng.randrange(21, 64)) | (1 << 20) for _ in range(4 if tier == "quick" else 60)]
+    for k in [129, 193, 1 << 10, (1 << 16) + 1, 1 << 20, (1 << 20) + 63] + mid + [x for x in ext if x >= (1 << 63)]:
         for n in heap:
             yield Case("u.chunks", [hx(n), dec(k)], nontrivial=True)
+    for L in ([3, 4, 5, 9] if tier == "quick" else [3, 4, 5, 6, 7, 9, 16, 17, 33]):
+        ns = [(1 << (64 * L)) - 1, 1 << (64 * (L - 1)), (1 << (64 * (L - 1))) | rng.getrandbits(64 * (L - 1)),
+              rng.getrandbits(64 * L - rng.randrange(1, 63)) | (1 << (64 * (L - 1)))]
+        ks = set()
+        for c in (L - 1, L, L + 1):
+            ks.update([64 * c - 63, 64 * c - 1, 64 * c, 64 * c + 1])       # ceil(k / 64) = c (c + 1 for the last one)
+        ks.update([64 * (L - 1) - rng.randrange(1, 63), 64 * L - rng.randrange(2, 63), 64 * L + rng.randrange(2, 63)])
+        for k in sorted(ks):
+            for n in ns:
+                yield Case("u.chunks", [hx(n), dec(k)], nontrivial=True)
     # two chunks far apart (result buffer of max_len + chunk_bits + 1 words)
     for k in [1 << 10, (1 << 14) + 1, 1 << 16]:
         yield Case("u.from_chunks", [dec(k), hx(rng.getrandbits(64)), hx(rng.getrandbits(70) | 1)], nontrivial=True)
@@ -694,7 +707,8 @@ RULE = ("fmt: for each radix (quick: 2,8,10,16,36 + 5 drawn by rng; thorough: al
         "chunks: sizes {0,1,2,7,8,63,64,65,127,128,129,192,200,256,320} x 0..8-word values; from_chunks with oversized chunks. "
         "extremes (ROUND4 addendum E): u32 radices 38, 63..65, 127..129, 255, 256, 2^31+-1, 2^32-1-k through from_str_radix / from_str_with_radix_default / in_radix; "
         "widths 65535, 65534, 32768, 4097 (the largest core::fmt accepts) for all traits and Debug; usize chunk_bits 1, 63..65, 128, 2^31, 2^32+-k, 2^63(+k), MAX-j (j = 0..130; "
-        "quick 14 of them) x inline values, x heap values for sizes <= 2^20 and >= 2^63, from_chunks with one chunk for every extreme size; every byte 0x00..0x7f in the "
+        "quick 14 of them) x inline values and x heap values, heap values also x sizes all over (2^20, 2^63) and x sizes with ceil(chunk_bits/64) = len-1, len, len+1 for "
+        "numbers of len = 3..9 (thorough ..33) words with full / minimal / random top word (the `.min(words.len())` clamp of fix 80bcfde), from_chunks with one chunk for every extreme size; every byte 0x00..0x7f in the "
         "prefix-letter position `0?101` and in the sign position through all entry points; Debug: 10^e, 10^e+-1 for every e = 39..139 (thorough ..699), head digits 100../99.., "
         "values around 2^(64j) and 2^(64j+63) for every j = 2..23 (thorough ..79). "
         "Non-trivial := more digits than one word holds / a padding width above the text length / heap values; distinct := distinct case lines.")
@@ -780,8 +794,8 @@ FRONTIER = [
     "log_word_base's f32 first guess is a parameter `est` of the Debug model (theorems hold for every est passing the function's own assert!; that the real "
     "estimate passes it is C10's clause); the two DigitWriters of DoubleEnd::format_prepared receive one piece each and are modelled by the per-byte conversion "
     "(equal by digit_writer_swar_sound)",
-    "to_chunks on heap values with chunk_bits in (2^20, 2^63) is not driven: the implementation allocates chunk_bits/8 bytes per chunk there (finding "
-    "to_chunks-huge-chunk-bits covers >= 2^63); from_chunks with two or more chunks is driven for chunk_bits <= 2^16 only (its result buffer has (len-1)*chunk_bits words)",
+    "from_chunks with two or more chunks is driven for chunk_bits <= 2^16 only (its result buffer has max_len + (len-1)*chunk_bits + 1 WORDS, which the "
+    "implementation really allocates); to_chunks is driven for every chunk size since fix 80bcfde",
 ]
 THEOREMS = ["Dashu.Props.C07." + t for t in [
     "positional_representation", "radix_table", "print_non_pow2_digits", "print_size_classes", "big_chunk_padded",
@@ -829,7 +843,7 @@ LEVEL_TEXT = ("Machine-checked Lean 4 theorems about an executable model of dash
 LEVEL_NOTE = ("Trusted: Lean kernel; axioms propext/Classical.choice/Quot.sound; the correspondence harness and generators (sampling) "
               "for the tie model<->code; division/multiplication kernels used inside the converters are exact arithmetic in the model "
               "(frontier, see evidence). Constants of the SWAR routine, DigitCase, the DigitWriter buffer, both CHUNK_LENs and the tower-loop test "
-              "and the parsers' digit table (digit_from_ascii_byte, is_radix_valid) are regenerated from the source text on every run (Tie A). Five defects found by this check "
-              "were repaired in /repo (`fixed:` lines of known_findings.jsonl); model and theorems describe the repaired code. One open finding: to_chunks on a heap value "
-              "with chunk_bits >= 2^63 panics (allocation sized from chunk_bits) instead of returning the number as a single chunk.")
+              "and the parsers' digit table (digit_from_ascii_byte, is_radix_valid) are regenerated from the source text on every run (Tie A). Six defects found by this check "
+              "were repaired in /repo (`fixed:` lines of known_findings.jsonl; the last one, to_chunks with chunk_bits >= 2^63 on a heap value, by 80bcfde); model and "
+              "theorems describe the repaired code. No open finding.")
 TECHNIQUE = "Lean 4 refinement proofs (positional-representation algebra, induction over digit/word lists, all W) + differential correspondence model vs real code + comparison with Rust primitive formatting"
